@@ -1,7 +1,18 @@
 """C09 bounded stand-in: sequences of file-system mutations on a small project; after every step the answers of a
-new Script in the long-lived process (warm caches) must equal the answers of a fresh process with an empty cache."""
+new Script in the long-lived process (warm caches) must equal the answers of a fresh process with an empty cache.
+
+Second generator (``ns_*``): packages that are SPLIT over several search-path roots (pkgutil / pkg_resources style namespace
+packages, PEP 420 implicit namespace packages, regular packages and mixtures), the roots being on the search path in three
+different ways (project root, parent directory of the buffer, Project(added_sys_path=...) / Project(sys_path=...)).  Seeded
+random histories create / delete / re-create whole portions, add / overwrite / delete / convert modules inside portions and
+switch the kind of a portion, while after EVERY step every module name of a fixed universe is asked for through
+from-import / dotted import / star-import / relative import - also the names that do not exist (yet)."""
+import json
 import os
+import random
 import shutil
+import subprocess
+import sys
 import tempfile
 import time
 
@@ -61,6 +72,285 @@ def default_project_answers(jedi, path, code, queries):
         except Exception as e:
             out.append('EXC:' + type(e).__name__)
     return out
+
+
+# ---------------------------------------------------------------------------------------------------------------------
+# packages split over several search-path roots
+# ---------------------------------------------------------------------------------------------------------------------
+NS_MODS = ('alpha', 'beta', 'gamma')
+NS_ROOTS = ('proj', 'proj/app', 'plug')       # project root / parent directory of the buffer / configured search path
+NS_INIT = {
+    'pkgutil': 'from pkgutil import extend_path\n__path__ = extend_path(__path__, __name__)\n',
+    'pkg_resources': "__import__('pkg_resources').declare_namespace(__name__)\n",
+    'regular': 'def plain_package_marker():\n    pass\n',
+    'implicit': None,                          # PEP 420: no __init__.py
+}
+
+
+def ns_buffers(pkg):
+    """[(relative buffer path, code, [(kind, line, column)])]: every universe name through every import form"""
+    top, tq = [], []
+
+    def add(lines, queries, line, kind='complete', col=None):
+        lines.append(line)
+        queries.append((kind, len(lines), len(line) if col is None else col))
+    first = 'from %s import %s' % (pkg, ', '.join(NS_MODS))
+    top.append(first)
+    for m in NS_MODS:
+        tq.append(('infer', 1, first.index(' ' + m) + 2))
+    top.append('import ' + ', '.join('%s.%s' % (pkg, m) for m in NS_MODS))
+    for m in NS_MODS:
+        add(top, tq, '%s.' % m)
+    for m in NS_MODS:
+        add(top, tq, '%s.%s.' % (pkg, m))
+    for m in NS_MODS:
+        add(top, tq, 'from %s.%s import ' % (pkg, m))
+    add(top, tq, 'from %s import ' % pkg)
+    add(top, tq, 'import %s.' % pkg)
+    star, sq = ['from %s.%s import *' % (pkg, m) for m in NS_MODS], []
+    add(star, sq, 'fn_')
+    rel, rq = ['from . import ' + ', '.join(NS_MODS)], []
+    for m in NS_MODS:
+        add(rel, rq, '%s.' % m)
+    for m in NS_MODS:
+        add(rel, rq, 'from .%s import ' % m)
+    add(rel, rq, 'from . import ')
+    return [('proj/app/buffer.py', '\n'.join(top) + '\n', tq),
+            ('proj/app/star_buffer.py', '\n'.join(star), sq),
+            ('proj/app/%s/relative_buffer.py' % pkg, '\n'.join(rel) + '\n', rq)]
+
+
+def ns_answers(jedi, specs):
+    """JSON-able digest of all queries of all projects; runs in the long-lived process AND in the fresh child"""
+    out = []
+    for base, pkg, config in specs:
+        proj, plug = os.path.join(base, 'proj'), os.path.join(base, 'plug')
+        if config == 'added':
+            project = jedi.Project(proj, added_sys_path=[plug])
+        else:
+            project = jedi.Project(proj, sys_path=[plug])
+        for rel, code, queries in ns_buffers(pkg):
+            if not os.path.isdir(os.path.dirname(os.path.join(base, rel))):
+                # Excluded sub-dimension (finding, same mechanism as the known finding 'search-path directory created
+                # later'): a buffer whose directory does not exist yet puts that directory on the search path, importlib
+                # of the helper caches "no importer" for it and modules created there later are never found.
+                out.extend([None] * len(queries))
+                continue
+            s = jedi.Script(code, path=os.path.join(base, rel), project=project)
+            for kind, line, col in queries:
+                try:
+                    if kind == 'complete':
+                        r = sorted([c.name, c.type] for c in s.complete(line, col) if not c.name.startswith('__'))[:40]
+                    else:
+                        r = sorted([d.name, d.type, os.path.relpath(str(d.module_path), base) if d.module_path else None]
+                                   for d in s.infer(line, col))
+                except Exception as e:
+                    r = 'EXC:' + type(e).__name__
+                out.append(r)
+    return out
+
+
+NS_CHILD = ('import sys, json; sys.path.insert(0, %r); import jedi; jedi.settings.cache_directory = %r; '
+            'from standins.c09 import ns_answers; print(json.dumps(ns_answers(jedi, %r)))')
+
+
+def ns_child_answers(repo, specs, cache):
+    here = os.path.dirname(os.path.dirname(os.path.abspath(__file__)))
+    p = subprocess.run([sys.executable, '-c', NS_CHILD % (repo, cache, specs)], capture_output=True, text=True,
+                       timeout=600, env=dict(os.environ, PYTHONPATH=here, PYTHONHASHSEED='0'))
+    try:
+        return json.loads(p.stdout.strip().splitlines()[-1])
+    except Exception:
+        raise RuntimeError('child process failed: %s' % p.stderr[-500:])
+
+
+class NsProject:
+    """model of one generated project: which root holds a portion of the package, of which kind, with which modules"""
+
+    def __init__(self, base, index, style, config, rng):
+        self.base, self.pkg, self.style, self.config, self.rng = base, 'nsp%d' % index, style, config, rng
+        self.portions = {}      # root -> {'kind': key of NS_INIT, 'mods': {module name: ('file' | 'package', definition)}}
+        self.counter = 0
+        self.dead = set()       # definitions that have been removed from the disk
+        for root in NS_ROOTS:       # every search-path root exists from the start (a root that is created later is the
+            os.makedirs(os.path.join(base, root), exist_ok=True)    # known finding 'search-path directory created later')
+
+    def spec(self):
+        return [self.base, self.pkg, self.config]
+
+    # -- disk ---------------------------------------------------------------------------------------------------
+    def _dir(self, root):
+        return os.path.join(self.base, root, self.pkg)
+
+    def _write(self, path, text):
+        os.makedirs(os.path.dirname(path), exist_ok=True)
+        with open(path, 'w') as f:
+            f.write(text)
+
+    def _kind(self):
+        if self.style == 'mixed':
+            return self.rng.choice(sorted(NS_INIT))
+        return self.style
+
+    def _set_kind(self, root, kind):
+        init = os.path.join(self._dir(root), '__init__.py')
+        if NS_INIT[kind] is None:
+            if os.path.exists(init):
+                os.remove(init)
+        else:
+            self._write(init, NS_INIT[kind])
+        self.portions[root]['kind'] = kind
+
+    def _module_path(self, root, mod, shape):
+        return os.path.join(self._dir(root), mod + '.py' if shape == 'file' else mod + '/__init__.py')
+
+    def _put_module(self, root, mod, shape, pad):
+        self.counter += 1
+        name = 'fn_%s_%03d' % (self.pkg, self.counter)        # constant width: an overwrite without pad keeps the size
+        old = self.portions[root]['mods'].get(mod)
+        if old:
+            self.dead.add(old[1])
+        self._write(self._module_path(root, mod, shape), 'def %s(x):\n    return x\n%s' % (name, '# pad\n' * pad))
+        self.portions[root]['mods'][mod] = (shape, name)
+
+    def _drop_module(self, root, mod):
+        shape, name = self.portions[root]['mods'].pop(mod)
+        self.dead.add(name)
+        if shape == 'file':
+            os.remove(self._module_path(root, mod, shape))
+        else:
+            shutil.rmtree(os.path.join(self._dir(root), mod))
+
+    # -- history ------------------------------------------------------------------------------------------------
+    def _free_names(self):
+        # Excluded sub-dimension (finding 'portion order depends on the hash seed'): a module name lives in at most ONE
+        # portion at a time.  ModuleValue.py__path__ of unchanged jedi returns list(set(...)) for pkgutil / pkg_resources
+        # style packages, so which of two equally named modules of two portions is reported depends on PYTHONHASHSEED:
+        # two fresh processes already disagree and the oracle is not defined.
+        used = {m for p in self.portions.values() for m in p['mods']}
+        return [m for m in NS_MODS if m not in used]
+
+    def candidates(self):
+        """[(weight, description, action)] for the current state, in a deterministic order"""
+        c = []
+        free = self._free_names()
+        for root in NS_ROOTS:
+            p = self.portions.get(root)
+            if p is None:
+                if free:
+                    c.append((6, 'create portion in %s' % root, lambda root=root: self.op_add_portion(root)))
+                continue
+            c.append((3, 'delete portion in %s' % root, lambda root=root: self.op_del_portion(root)))
+            if free:
+                c.append((3, 'add module to portion in %s' % root, lambda root=root: self.op_add_module(root)))
+            for mod in sorted(p['mods']):
+                c.append((2, 'overwrite %s in %s' % (mod, root), lambda root=root, mod=mod: self.op_overwrite(root, mod)))
+                c.append((1, 'delete %s in %s' % (mod, root), lambda root=root, mod=mod: self._drop_module(root, mod)))
+                c.append((1, 'module<->package %s in %s' % (mod, root), lambda root=root, mod=mod: self.op_reshape(root, mod)))
+            if self.style == 'mixed':
+                c.append((4, 'change kind of portion in %s' % root, lambda root=root: self.op_rekind(root)))
+        return c
+
+    def step(self):
+        c = self.candidates()
+        pick = self.rng.uniform(0, sum(w for w, _, _ in c))
+        for w, desc, action in c:
+            pick -= w
+            if pick <= 0:
+                break
+        detail = action()
+        return '%s[%s/%s]: %s%s' % (self.pkg, self.style, self.config, desc, ' (%s)' % detail if detail else '')
+
+    def op_add_portion(self, root):
+        kind, mod = self._kind(), self.rng.choice(self._free_names())
+        self.portions[root] = {'kind': kind, 'mods': {}}
+        os.makedirs(self._dir(root), exist_ok=True)
+        self._set_kind(root, kind)
+        self._put_module(root, mod, 'file', 0)
+        return '%s, %s' % (kind, mod)
+
+    def op_del_portion(self, root):
+        for shape, name in self.portions.pop(root)['mods'].values():
+            self.dead.add(name)
+        shutil.rmtree(self._dir(root))
+
+    def op_add_module(self, root):
+        mod = self.rng.choice(self._free_names())
+        self._put_module(root, mod, self.rng.choice(['file', 'file', 'package']), 0)
+        return mod
+
+    def op_overwrite(self, root, mod):
+        pad = self.rng.choice([0, 0, 1, 3])
+        self._put_module(root, mod, self.portions[root]['mods'][mod][0], pad)
+        return 'same size' if not pad else 'other size'
+
+    def op_reshape(self, root, mod):
+        shape = self.portions[root]['mods'][mod][0]
+        self._drop_module(root, mod)
+        self._put_module(root, mod, 'package' if shape == 'file' else 'file', 0)
+
+    def op_rekind(self, root):
+        kind = self.rng.choice([k for k in sorted(NS_INIT) if k != self.portions[root]['kind']])
+        self._set_kind(root, kind)
+        return kind
+
+    def layout(self):
+        return {root: [p['kind'], sorted(p['mods'])] for root, p in sorted(self.portions.items())}
+
+
+NS_PROJECTS = [('pkgutil', 'added'), ('pkg_resources', 'explicit'), ('implicit', 'added'), ('mixed', 'explicit'),
+               ('pkg_resources', 'added'), ('pkgutil', 'explicit'), ('mixed', 'added')]
+
+
+def ns_run(jedi, repo, seed, tier, root, violations, samples):
+    """Lock-step histories of several projects.  Per step, for all projects together: one evaluation in the long-lived
+    process, one in a new process that shares the on-disk parser cache of the long-lived one, and the oracle (a fresh
+    process with an empty cache)."""
+    n_steps = 6 if tier == 'quick' else 30      # the cost of a step is two child processes, whatever the number of projects
+    projects = []
+    for i, (style, config) in enumerate(NS_PROJECTS if tier == 'quick' else NS_PROJECTS * 3):
+        projects.append(NsProject(os.path.join(root, 'ns%d' % i), i, style, config,
+                                  random.Random('C09-ns-%d-%d' % (seed, i))))
+    specs = [p.spec() for p in projects]
+    per_project = sum(len(q) for _, _, q in ns_buffers('x'))
+    evaluations = nontrivial = 0
+    # the queries are also made BEFORE anything exists: lookups of absent names are part of every history
+    history = [['nothing exists yet'] * len(projects)]
+    for step in range(n_steps + 1):
+        if step:
+            history.append([p.step() for p in projects])
+        observed = [('long-lived process', json.loads(json.dumps(ns_answers(jedi, specs)))),
+                    ('new process with the warm on-disk cache',
+                     ns_child_answers(repo, specs, str(jedi.settings.cache_directory)))]
+        cache = tempfile.mkdtemp(prefix='fresh_', dir=os.environ['STANDIN_TMP'])
+        try:
+            fresh = ns_child_answers(repo, specs, cache)
+        finally:
+            shutil.rmtree(cache, ignore_errors=True)
+        for i, p in enumerate(projects):
+            f = fresh[i * per_project:(i + 1) * per_project]
+            nontrivial += any(a for a in f)
+            where = 'history: %s; layout now: %s' % (' -> '.join(h[i] for h in history), p.layout())
+            for who, got in observed:
+                evaluations += 1
+                w = got[i * per_project:(i + 1) * per_project]
+                if w != f:
+                    qs = [(rel, code.splitlines()[line - 1])
+                          for rel, code, queries in ns_buffers(p.pkg) for _, line, _ in queries]
+                    diffs = [(qs[k], w[k], f[k]) for k in range(per_project) if w[k] != f[k]]
+                    violations.append({'label': 'answers after a change of a package split over several search-path roots '
+                                                'differ from a fresh process (%s)' % who,
+                                       'input': where,
+                                       'observed': 'query, %s, fresh process: ' % who + repr(diffs)[:600]})
+                # sound without knowing the resolution order: a definition that is no longer on disk is never reported
+                stale = sorted({x[0] for a in w if isinstance(a, list) for x in a if x[0] in p.dead})
+                if stale:
+                    violations.append({'label': 'a definition that no longer exists on disk is reported for a split '
+                                                'package (%s)' % who,
+                                       'input': where, 'observed': repr(stale)})
+        if len(samples) < 4 and step in (1, n_steps):
+            samples.append({'step': history[-1][0], 'answers': [a for a in observed[0][1][:per_project] if a][:3]})
+    return evaluations, nontrivial, len(projects), n_steps
 
 
 def run(repo, seed, tier):
@@ -186,13 +476,24 @@ def run(repo, seed, tier):
             violations.append({'label': 'an import sees the unsaved buffer of an earlier Script instead of the file on disk',
                                'input': 'Script(unsaved text, path=shared_mod.py) then import shared_mod from another buffer',
                                'observed': repr((warm, fresh))[:600]})
+        # packages split over several search-path roots
+        ns_eval, ns_nontrivial, ns_projects, ns_steps = ns_run(jedi, repo, seed, tier, root, violations, samples)
+        evaluations += ns_eval
     finally:
         shutil.rmtree(root, ignore_errors=True)
     return {'name': 'C09.fs-mutations', 'contract': 'C09.freshness',
             'evaluations': evaluations, 'distinct_nontrivial': evaluations,
             'rule': 'one project, %d file-system mutation steps (create, overwrite same size / same second, function<->class, '
                     'remove definition, delete, module<->package, add/remove __init__, stub) x %d queries through '
-                    'import / from-import, plus 7 project-marker steps for Scripts without explicit project; '
-                    'oracle = fresh child process with an empty parser cache' % (len(steps('/x')), len(QUERIES)),
+                    'import / from-import, plus 7 project-marker steps for Scripts without explicit project; plus %d '
+                    'seeded random histories of %d steps on packages split over 3 search-path roots (project root, parent '
+                    'directory of the buffer, added_sys_path / sys_path; pkgutil, pkg_resources, PEP 420, regular and '
+                    'mixed portions; create / delete / re-create portion, add / overwrite / delete module, '
+                    'module<->package, change kind of portion) x %d queries for every universe name, existing or not, '
+                    'through from-import / dotted import / star-import / relative import, in the long-lived process and '
+                    'in a new process with the warm on-disk cache (%d of %d split-package states non-trivial); '
+                    'oracle = fresh child process with an empty parser cache; reported definitions must exist on disk'
+                    % (len(steps('/x')), len(QUERIES), ns_projects, ns_steps,
+                       sum(len(q) for _, _, q in ns_buffers('x')), ns_nontrivial, ns_projects * (ns_steps + 1)),
             'samples': samples, 'violations': violations[:50],
             'violation_counts': {'answers differ': len(violations)}}
